@@ -18,7 +18,9 @@ Record case07 := {
   k_slice : option (N * option N * str);         (* Some (from, to, value): the case applies Slice { from, to } to value *)
   o_panicked : bool;
   o_timed_out : bool;
-  o_slice_out : option str                       (* the crate's result of that transform, when it returned *)
+  o_slice_out : option str;                      (* the crate's result of that transform, when it returned *)
+  o_known : N                                    (* 0, or the code of the LISTED open finding (known_findings.json, property C07)
+                                                    whose panic message the caught panic carries; see harness/src/c07.rs known_class *)
 }.
 
 Definition returned (c : case07) : bool := negb (o_panicked c) && negb (o_timed_out c).
@@ -37,7 +39,11 @@ Definition slice_agrees (c : case07) : bool :=
 
 (* bit 1: "returned" as far as a model says so (and the Slice model agrees with the crate);
    bit 4: the property on the observation: did not panic and returned within the time bound *)
-Definition verdict07 (c : case07) : N :=
-  (vbit (returned c && slice_agrees c) 1 + vbit (returned c) 4)%N.
+(* bits 8..: the code of a listed open finding, only on a caught panic (the driver prints KNOWN-FINDING for it while the
+   finding is open in known_findings.json and reports a violation as soon as it is not) *)
+Definition known_bits (c : case07) : N := if o_panicked c then (256 * o_known c)%N else 0%N.
 
-Definition spec_verdict07 (c : case07) : N := vbit (returned c) 4.
+Definition verdict07 (c : case07) : N :=
+  (vbit (returned c && slice_agrees c) 1 + vbit (returned c) 4 + known_bits c)%N.
+
+Definition spec_verdict07 (c : case07) : N := (vbit (returned c) 4 + known_bits c)%N.
